@@ -2,7 +2,7 @@
 
 Space: tables over a field alphabet {quote, every delimiter character, space, tab, CR, LF, ordinary, non-ASCII} - all 1-2 field rows over fields of <= 2
 characters, single and paired fields of length 3 (thorough: 4, and all 2-field rows over fields <= 3), 3-field rows and 2-row tables over fields <= 1 -
-x 24 (policy, delimiter) configurations incl. multi-character and non-ASCII delimiters x line separators x encodings; all 256 latin-1 code points.
+x 31 (policy, delimiter) configurations incl. multi-character and non-ASCII delimiters x line separators x encodings; all 256 latin-1 code points.
 Oracle: a table is representable iff the reference writer/reader pair round-trips it; then the real writer -> real reader must return it with no
 warnings from either side. For every table: delimiter inside a simple/whitespace field, or a None, must produce the warning.
 """
@@ -17,6 +17,8 @@ def configs():
     for pol in ('simple', 'quoted', 'quoted_rfc'):
         for d in (',', ';', '\t', '|', '::', ':;', '§'):
             out.append((pol, d))
+    for pol, d in (('quoted', '.'), ('simple', '\\'), ('quoted_rfc', '^'), ('quoted', '$'), ('quoted_rfc', ']'), ('simple', '*'), ('quoted', '(')):
+        out.append((pol, d))       # delimiters that are special inside regular expressions
     out.append(('quoted', ' '))
     out.append(('whitespace', ' '))
     out.append(('monocolumn', ''))
@@ -304,7 +306,7 @@ def main(tier, seed):
     res = core.run_shards('vf.checks.c10', shards)
     return core.finish(PID, tier, seed, res, t0,
         rule='tables over the field alphabet {quote, delimiter characters, space, tab, CR, LF, ordinary, non-ASCII}: all 1-2 field rows over fields <= 2 chars, fields of length 3 (thorough 4; and all 2-field rows over fields <= 3) '
-             'alone and paired, 3-field rows, 2-row tables, None cells, x 24 (policy, delimiter) configurations (single-, multi-character, non-ASCII) x line separators x encodings; all 256 latin-1 code points; '
+             'alone and paired, 3-field rows, 2-row tables, None cells, x 31 (policy, delimiter) configurations (single-, multi-character, non-ASCII) x line separators x encodings; all 256 latin-1 code points; '
              'non-trivial = representable by the reference writer/reader pair (then the real pair must round-trip with no warnings)',
         assumptions=['representable is decided by RefCSV (ref_read(ref_write(t)) == t, CR/CRLF normalised to LF under quoted_rfc)', 'no leading BOM character in the first field'],
         extra={'configurations': len(configs()), 'ordinary': o},
